@@ -9,6 +9,8 @@ def c17_files(seed):
     return [
         # more than 64 pages between related sections: per-page state indexed modulo a word size would alias
         progs.prog("wide", [progs.new(), progs.blob(66000, 5), progs.pc(p[0], 40, seed=seed + 5), progs.blob(66200, 6), progs.pc(p[4], 30, seed=seed + 6, guid="b"), progs.FIN], max_depth=2),
+        # two point clouds with the same GUID (and a third without a distinguishing one): nothing may be keyed by it
+        progs.prog("same_guid", [progs.new(), progs.pc(p[0], 25, seed=seed + 7, guid="same"), progs.blob(40, 8), progs.pc(p[0], 25, seed=seed + 8, guid="same"), progs.pc(p[1], 9, seed=seed + 9, guid=""), progs.FIN], max_depth=2),
         progs.prog("two", [progs.new(), progs.blob(300, 1), progs.pc(p[0], 120, seed=seed), progs.blob(1500, 2), progs.pc(p[4], 50, seed=seed + 1, guid="b"), progs.FIN]),
         progs.prog("three", [progs.new(), progs.pc(p[2], 400, seed=seed + 2), progs.blob(17, 3), progs.pc(p[1], 30, seed=seed + 3, guid="b"),
                              progs.image([progs.rep("visual", 900, mask=50)]), progs.blob(1003, 4), progs.FIN]),
@@ -28,7 +30,7 @@ def run(tier, seed, args):
     files = c17_files(seed)
     pp = os.path.join(wd, "files.ndjson")
     with open(pp, "w") as f:
-        for p in (files if deep else files[:2]):
+        for p in (files if deep else files[:3]):
             f.write(json.dumps(p) + "\n")
     tp = os.path.join(wd, "c17.trace.ndjson")
     vlib.harness(exe, ["c17-run", "--progs", pp, "--depth", 3 if deep else 2, "--out", tp])
@@ -36,7 +38,7 @@ def run(tier, seed, args):
     tp2 = os.path.join(wd, "c17t.trace.ndjson")
     pp2 = os.path.join(wd, "files_t.ndjson")
     with open(pp2, "w") as f:
-        for p in files[1:2] + (files[2:3] if deep else []):
+        for p in files[2:3] + (files[3:4] if deep else []):
             f.write(json.dumps(p) + "\n")
     vlib.harness(exe, ["c17-transient", "--progs", pp2, "--out", tp2])
     open(tp, "a").write(open(tp2).read()); os.remove(tp2)
